@@ -5,6 +5,7 @@ import (
 	"sync"
 	"sync/atomic"
 
+	"github.com/contiv/libOpenflow/common"
 	of "github.com/contiv/libOpenflow/openflow13"
 	"github.com/contiv/libOpenflow/util"
 
@@ -44,6 +45,18 @@ var HoldDefaults atomic.Bool
 
 var learnOnce sync.Once
 
+// helloDefault is the version bitmap (as wire bytes) the library's own hello constructor puts into its first element;
+// no property pins its contents, so the recipes take it from the tree under test.
+var helloDefault = []byte{0, 0, 0, 0x12}
+
+// HelloDefaultBitmap returns the bitmap bytes of the hello the library constructs by default.
+func HelloDefaultBitmap() []byte {
+	if !HoldDefaults.Load() {
+		learnOnce.Do(learnDefaults)
+	}
+	return append([]byte(nil), helloDefault...)
+}
+
 func learnDefaults() {
 	act := func(kind string, mk func() of.Action) {
 		learn(kind, func() (*rec.Rec, error) { return lib.ExtractAction(mk()) })
@@ -67,6 +80,20 @@ func learnDefaults() {
 	msg("packet_out", func() util.Message { return of.NewPacketOut() })
 	msg("port_mod", func() util.Message { return of.NewPortMod(0) })
 	msg("set_config", func() util.Message { return of.NewSetConfig() })
+	func() {
+		defer func() { recover() }()
+		h, err := common.NewHello(4)
+		if err != nil || h == nil || len(h.Elements) != 1 {
+			return
+		}
+		if vb, ok := h.Elements[0].(*common.HelloElemVersionBitmap); ok && len(vb.Bitmaps) > 0 && len(vb.Bitmaps) <= 8 {
+			var b []byte
+			for _, w := range vb.Bitmaps {
+				b = append(b, byte(w>>24), byte(w>>16), byte(w>>8), byte(w))
+			}
+			helloDefault = b
+		}
+	}()
 }
 
 // withDefaults replaces, with probability 1/5 each, scalar fields of a recipe by the constructor's default. One PRNG
